@@ -121,7 +121,7 @@ pub async fn serve(
     let mut recver = store.read(options).await;
 
     let mut generators: HashMap<String, GeneratorTask> = HashMap::new();
-    let mut compacted_frames: HashMap<String, Frame> = HashMap::new();
+    let mut compacted_frames: HashMap<(Scru128Id, String), Frame> = HashMap::new();
 
     // Phase 1: Collect and compact messages until threshold
     while let Some(frame) = recver.recv().await {
@@ -136,7 +136,8 @@ pub async fn serve(
                 .strip_suffix(".spawn.error")
                 .or_else(|| frame.topic.strip_suffix(".spawn"))
             {
-                compacted_frames.insert(topic.to_string(), frame);
+                // a generator name is scoped to its context
+                compacted_frames.insert((frame.context_id, topic.to_string()), frame);
             }
         }
     }
